@@ -326,6 +326,113 @@ def const_value(op):
     return bits
 
 
+def canonicalise_names(j):
+    """Behaviour-preserving renames of functions and struct fields must not change a verdict.  The names of the pinned
+    tree are kept in tables/names_baseline.json; a function that disappeared and reappears in the same impl (or module)
+    with the same signature under a new name, or a field that disappeared while a new field of the same type appeared in
+    the same struct, is mapped back to its baseline name before any rule runs.  Only unambiguous matches are applied;
+    the applied renames are returned (and printed in the evidence)."""
+    import os
+    base_path = os.path.join(os.path.dirname(os.path.dirname(os.path.abspath(__file__))), 'tables', 'names_baseline.json')
+    if not os.path.exists(base_path) or j.get('crate') != 'kira':
+        return {}, {}
+    base = json.load(open(base_path))
+    cur = {}
+    for f in j['fns']:
+        cur.setdefault(norm(f['path']), f)
+    missing = [p for p in base['fns'] if p not in cur]
+    new = [p for p in cur if p not in base['fns']]
+    ren_fn = {}
+    for old in missing:
+        b = base['fns'][old]
+        cands = []
+        for n in new:
+            f = cur[n]
+            if f['sig'] != b['sig'] or f['impl_self'] != b['impl_self'] or f['impl_trait'] != b['impl_trait']:
+                continue
+            if b['impl_self'] is None and n.rsplit('::', 1)[0] != old.rsplit('::', 1)[0]:
+                continue
+            cands.append(n)
+        # the other direction must be unambiguous too
+        if len(cands) == 1:
+            n = cands[0]
+            back = [o for o in missing if base['fns'][o]['sig'] == cur[n]['sig'] and base['fns'][o]['impl_self'] == cur[n]['impl_self']
+                    and base['fns'][o]['impl_trait'] == cur[n]['impl_trait']
+                    and (cur[n]['impl_self'] is not None or o.rsplit('::', 1)[0] == n.rsplit('::', 1)[0])]
+            if len(back) == 1:
+                ren_fn[n] = old
+    ren_field = {}
+    for a in j['adts']:
+        ap = norm(a['path'])
+        if a['kind'] != 'Struct' or ap not in base['fields']:
+            continue
+        bf = base['fields'][ap]
+        cf = [(f['name'], f['ty']) for f in a['variants'][0]['fields']]
+        bnames = set(n for n, _ in bf)
+        cnames = set(n for n, _ in cf)
+        gone = [(n, t) for n, t in bf if n not in cnames]
+        came = [(n, t) for n, t in cf if n not in bnames]
+        for n, t in came:
+            m = [g for g in gone if g[1] == t]
+            m2 = [c for c in came if c[1] == t]
+            if len(m) == 1 and len(m2) == 1:
+                ren_field[(ap, n)] = m[0][0]
+    if not ren_fn and not ren_field:
+        return ren_fn, ren_field
+
+    def fix_path(p):
+        if not isinstance(p, str):
+            return p
+        q = norm(p)
+        for n, o in ren_fn.items():
+            if q == n:
+                return o
+            if q.startswith(n + '::'):
+                return o + q[len(n):]
+        return p
+
+    def walk(x):
+        if isinstance(x, dict):
+            if 'p' in x and 'l' in x and isinstance(x['p'], list):
+                for pr in x['p']:
+                    if pr and pr[0] == 'field' and len(pr) > 3 and pr[3] and (norm(pr[3]), pr[2]) in ren_field:
+                        pr[2] = ren_field[(norm(pr[3]), pr[2])]
+            if x.get('k') == 'agg' and x.get('adt') and 'fields' in x:
+                ap = norm(x['adt'])
+                x['fields'] = [ren_field.get((ap, f), f) for f in x['fields']]
+            c = x.get('callee')
+            if isinstance(c, dict):
+                for k in ('path', 'resolved'):
+                    if k in c:
+                        c[k] = fix_path(c[k])
+                if 'name' in c and c.get('path'):
+                    c['name'] = c['path'].rsplit('::', 1)[-1] if '::' in c['path'] else c['name']
+            for v in x.values():
+                walk(v)
+        elif isinstance(x, list):
+            for v in x:
+                walk(v)
+    for b in j['bodies']:
+        b['path'] = fix_path(b['path'])
+        walk(b['blocks'])
+        walk(b.get('debug'))
+    for i in j['instances']:
+        i['path'] = fix_path(i['path'])
+    for f in j['fns']:
+        f['path'] = fix_path(f['path'])
+    for im in j['impls']:
+        for it in im['items']:
+            it['path'] = fix_path(it['path'])
+            if '::' in it['path']:
+                it['name'] = it['path'].rsplit('::', 1)[-1]
+    for a in j['adts']:
+        ap = norm(a['path'])
+        for v in a['variants']:
+            for f in v['fields']:
+                f['name'] = ren_field.get((ap, f['name']), f['name'])
+    return ren_fn, ren_field
+
+
 class Facts:
     def __init__(self, path_or_json):
         if isinstance(path_or_json, str):
@@ -333,6 +440,7 @@ class Facts:
                 j = json.load(f)
         else:
             j = path_or_json
+        self.renamed_fns, self.renamed_fields = canonicalise_names(j)
         self.j = j
         self.nonce = j.get('nonce')
         self.crate = j['crate']
